@@ -1,6 +1,6 @@
 """C15 - aggregate fed fraction is a capped, population-weighted mean of the selection (DESIGN.md §7 C15)."""
 import math, os
-from lib import wire
+from lib import wire, pipeline
 from lib.wire import f2b, sl, Reader, close
 from translators import tr_country
 
@@ -293,6 +293,49 @@ def part_stubbed(ctx, cls, rows, n_runs, whole_table):
         check_run(ctx, kind, l, fr, rows, impl, o)
 
 
+def part_deep_stub(ctx, cls, rows, n_runs):
+    """only the three-round run itself is replaced (ScenarioRunner.run_and_analyze_scenario returns an object carrying a prepared percent fed):
+    run_optimizer_for_country — the percent -> fraction conversion — and set_depending_on_option run for real"""
+    import src.scenarios.run_model_no_trade as mod
+    from types import SimpleNamespace
+    rng = ctx.rng
+    codes = [r[0] for r in rows]
+    small = [r[0] for r in rows]
+    PCTS = [0.0, 1e-9, 0.004, 0.3, 0.65, 0.9999, 1.0, 1.0000001, 1.59, 37.2, 99.999, 100.0, 100.0000001, 150.0, 2500.0]
+    cases = []
+    for _ in range(n_runs):
+        l = rng.sample(small, rng.choice([1, 1, 2, 3, 6]))
+        pct = {c: (rng.choice(PCTS) if rng.random() < 0.7 else 100.0 * rng.random() ** 3) for c in l}
+        cases.append(("incl", l, pct))
+    orig = mod.ScenarioRunner.run_and_analyze_scenario
+    lines, impls = [], []
+    for kind, l, pct in cases:
+        calls = []
+
+        def fake(self, c_, tc_, sl_, a_, b_, post_, country_data, save_, name_, iso3, title="U", _pct=pct, _calls=calls):
+            _calls.append(iso3)
+            return SimpleNamespace(percent_people_fed=_pct[iso3])
+        mod.ScenarioRunner.run_and_analyze_scenario = fake
+        try:
+            with ctx.quiet():
+                world, net_pop, net_fed, results = cls().run_model_no_trade(
+                    title="verif_deep", create_pptx_with_all_countries=False, show_country_figures=False, show_map_figures=False,
+                    add_map_slide_to_pptx=False, scenario_option=dict(pipeline.BASE_OPTIONS), countries_list=list(l), return_results=True)
+        finally:
+            mod.ScenarioRunner.run_and_analyze_scenario = orig
+        fr = {c: float("nan") for c in codes}
+        for c in l:
+            fr[c] = pct[c] / 100
+        impls.append((float(net_pop), float(net_fed), list(results.keys()), calls, results))
+        lines.append(model_line(l, rows, fr))
+        cases[len(impls) - 1] = (kind, l, fr)
+        ctx.count("deep-stub-runs")
+        if any(0 < pct[c] <= 1 for c in l):
+            ctx.count("deep-stub-runs-with-a-country-below-one-percent")
+    for (kind, l, fr), impl, o in zip(cases, impls, ctx.lean(lines) if lines else []):
+        check_run(ctx, kind, l, fr, rows, impl, o, tag="deep-stub")
+
+
 def real_options(ctx):
     import yaml
     cfg = yaml.safe_load(open(os.path.join(ctx.repo, "scenarios", "argentina.yaml")))
@@ -341,6 +384,7 @@ def correspondence(ctx):
         ctx.disagree("table-rows", {}, len(rows), ctx.extra.get("country_rows"))
     part_selection(ctx, cls(), codes, ctx.budget(2000, 20000))
     part_stubbed(ctx, cls, rows, ctx.budget(260, 4000), ctx.budget(25, 300))
+    part_deep_stub(ctx, cls, rows, ctx.budget(40, 600))
     if not ctx.quick:
         rng = ctx.rng
         small = [r[0] for r in sorted(rows, key=lambda r: r[2])[:60]]
